@@ -23,20 +23,24 @@ func TestCheck(t *testing.T) {
 	defer cancel()
 
 	workers := min(runtime.NumCPU(), 12)
-	nSeq, steps := r.Pick(600, 20000), r.Pick(200, 200)
+	nSeq, steps := r.Pick(600, 12000), r.Pick(200, 200)
+	t0 := time.Now()
 	vh.Parallel(nSeq, workers, func(i int) {
 		if ctx.Err() != nil || r.Violations() >= 12 {
 			return
 		}
 		runHistory(r, ctx, i, steps)
 	})
-	nConc := r.Pick(3000, 120000)
+	r.Set("sequential_phase_wall_s", time.Since(t0).Seconds())
+	t1 := time.Now()
+	nConc := r.Pick(3000, 40000)
 	vh.Parallel(nConc, workers, func(i int) {
 		if ctx.Err() != nil || r.Violations() >= 12 {
 			return
 		}
 		runConcurrent(r, ctx, i)
 	})
+	r.Set("concurrent_phase_wall_s", time.Since(t1).Seconds())
 	if ctx.Err() != nil {
 		r.Inconclusive("watchdog context expired before all histories ran")
 	}
